@@ -45,7 +45,10 @@ func allStrings(alpha string, n int) []string {
 func h(s string) string { return vh.Hex([]byte(s)) }
 
 var rootFrags = []string{"a", "b", "root", "r", "tmp", "..", ".", "", "ro", "\xc3\xbc", "a b", "..a", "a..", "..."}
-var tailFrags = []string{"f", "x", "root", "a", "b", "..", "..", ".", "", "r", "dir", "..x", "\xe2\x82\xac", "%2e%2e", "...", "http:"}
+
+// backslash is an ordinary byte of a POSIX file name: these are single path components
+var bsFrags = []string{"..\\x", "a\\..\\..\\b", "\\abs", "t\\", "..\\..\\secret.txt", "..\\", "\\", "a\\b", ".\\.", "..\\..", "x\\..\\y"}
+var tailFrags = []string{"..\\x", "a\\..\\..\\b", "\\abs", "t\\", "..\\..\\secret.txt", "f", "x", "root", "a", "b", "..", "..", ".", "", "r", "dir", "..x", "\xe2\x82\xac", "%2e%2e", "...", "http:"}
 var urls = []string{"http://h/p", "https://h/p", "http://", "https://", "http:/x/y", "https:/h/pp", "httpx://a/b", "http://a/../b", "https://x", "http://x", "HTTP://h/p"}
 
 func joinFrags(r *vh.Rand, frags []string, k int) string {
@@ -64,6 +67,9 @@ func joinFrags(r *vh.Rand, frags []string, k int) string {
 
 func randRoot(r *vh.Rand) string {
 	s := joinFrags(r, rootFrags, r.Range(0, 4))
+	if r.Chance(1, 8) {
+		s += "/" + vh.Pick(r, bsFrags)
+	}
 	switch r.Intn(10) {
 	case 0, 1, 2, 3, 4, 5:
 		s = "/" + s
@@ -169,7 +175,8 @@ func gen(r *vh.Rand, tier string, n int, emit func(vh.Case)) {
 				// a real directory tree with a symbolic link below the root (see sandbox())
 				rr := vh.Pick(r, []string{"/root", "/root", "/root/", "/root/in", "/root/link", "/root/./", "/outside"})
 				ff := vh.Pick(r, []string{"/root/in/f", "/root/f", "/root/link/secret", "/root/link", "/root-sibling/f", "/root/../outside/secret",
-					"/root/in/../f", "/root/in", "/root/nothing", "/outside/secret", "/root/link/../f", "/root//in/./f"})
+					"/root/in/../f", "/root/in", "/root/nothing", "/outside/secret", "/root/link/../f", "/root//in/./f",
+					"/root/in/..\\f", "/root/..\\outside\\secret", "/root/in\\f", "/root/in/..\\f", "/root/..\\outside\\secret"})
 				c.Ops = append(c.Ops, "fsput "+h(rr)+" "+h(ff))
 			case 9:
 				var fs []string
@@ -405,7 +412,9 @@ func sandbox() (string, error) {
 	if s, err = filepath.EvalSymlinks(s); err != nil {
 		return "", err
 	}
-	for _, f := range []string{"root/in/f", "root/f", "outside/secret", "root-sibling/f"} {
+	// the last three are single components containing backslashes; rewriting '\\' to '/' would reach the decoys
+	// root/f, outside/secret and root/in/f
+	for _, f := range []string{"root/in/f", "root/f", "outside/secret", "root-sibling/f", "root/in/..\\f", "root/..\\outside\\secret", "root/in\\f"} {
 		p := filepath.Join(s, f)
 		if err := os.MkdirAll(filepath.Dir(p), 0o755); err != nil {
 			return s, err
@@ -469,6 +478,9 @@ func doFsPut(o *vh.Out, rootRel, fullRel string) {
 	blk, gerr := fm.Get(ctx, nd.Cid())
 	if len(opened) == 1 && !lexicallyInside(root, opened[0]) {
 		o.Fail("outside-root", "fs root=%q full=%q stored=%q opened=%q", root, full, stored, opened[0])
+	}
+	if len(opened) == 1 && opened[0] != filepath.Clean(full) {
+		o.Fail("resolves-elsewhere", "fs root=%q full=%q stored=%q opened=%q", root, full, stored, opened[0])
 	}
 	if gerr != nil || blk == nil {
 		o.Kind("fs-missing")
